@@ -153,21 +153,21 @@ def run_job(job, tier, seed):
     if job == 'tables':
         cases = common.layout_cases(tier, seed, 'C02')
         layouts = common.build_layouts(res, cases)
-        C01._compare_tables(res, layouts, which=('omt', 'imt', 'lcmt'))
+        common.gcall(res, C01._compare_tables, layouts, which=('omt', 'imt', 'lcmt'))
         for tag, L in layouts:
             if L.dims == 0:
                 continue
             big = L.gaDims > 32
-            check_grade_parts(res, L, rng, tag, reps=1, full_pairs=not (big and tier == 'quick'))
+            common.gcall(res, check_grade_parts, L, rng, tag, reps=1, full_pairs=not (big and tier == 'quick'))
         for n in range(1, 5 if tier == 'quick' else 7):
-            check_signature_independence(res, rng, n, 4 if tier == 'quick' else 12, tier)
-        op_correspondence(res, [(t, L) for t, L in layouts if L.gaDims <= 64], rng, 2 if tier == 'quick' else 6, 'nojit')
+            common.gcall(res, check_signature_independence, rng, n, 4 if tier == 'quick' else 12, tier)
+        common.gcall(res, op_correspondence, [(t, L) for t, L in layouts if L.gaDims <= 64], rng, 2 if tier == 'quick' else 6, 'nojit')
         pre = []
         for name in ('g3c', 'pga', 'sta:D', 'g3_1', 'pga2d'):
             L = real.predefined(name)
             pre.append((f"P_{name.replace(':', '_')}", L))
-            check_grade_parts(res, L, rng, name, reps=1, full_pairs=False)
-        C01._compare_tables(res, pre, which=('omt', 'imt', 'lcmt'))
+            common.gcall(res, check_grade_parts, L, rng, name, reps=1, full_pairs=False)
+        common.gcall(res, C01._compare_tables, pre, which=('omt', 'imt', 'lcmt'))
     elif job == 'ops_jit':
         cases = [dict(sig=gen.random_signature(rng, n)) for n in (1, 2, 3, 4)]
         n = int(rng.integers(2, 4))
@@ -176,10 +176,10 @@ def run_job(job, tier, seed):
         if tier == 'thorough':
             cases += [dict(sig=gen.random_signature(rng, n)) for n in (5, 6)]
         layouts = common.build_layouts(res, cases, prefix='J')
-        C01._compare_tables(res, layouts, which=('omt', 'imt', 'lcmt'))
+        common.gcall(res, C01._compare_tables, layouts, which=('omt', 'imt', 'lcmt'))
         for tag, L in layouts:
-            check_grade_parts(res, L, rng, tag, reps=1, full_pairs=L.gaDims <= 16)
-        op_correspondence(res, layouts, rng, 6 if tier == 'quick' else 20, 'jit', dtypes=('int', 'float'))
+            common.gcall(res, check_grade_parts, L, rng, tag, reps=1, full_pairs=L.gaDims <= 16)
+        common.gcall(res, op_correspondence, layouts, rng, 6 if tier == 'quick' else 20, 'jit', dtypes=('int', 'float'))
     else:
         raise ValueError(job)
     return res
